@@ -28,9 +28,16 @@ def run(c):
         "their real answers are shipped with every case; the monitor uses its own ground truth (generator shape, own tag reader) instead",
         "the resolver answers case-insensitively (mockdns lower-cases names); DNS answer classes: TXT list / not found / temporary / other error",
         "math/rand.Int31n(100) is an oracle argument; the harness fixes it with rand.Seed (go <= 1.23 semantics) for records with pct",
+        "asynchronous policy lookup: the model of the hand-off (Model/Dmarc.lean: timedLookup, pipelineBody) takes the stage at which each DNS answer arrives and "
+        "the stage after which the lookup's context is cancelled; for the code (context of Body, cancelled by close() only) C07_answer_timing_irrelevant proves the "
+        "decision independent of the schedule; the harness resolver honours its context like net.Resolver (a lookup cancelled before its answer arrived ends with a "
+        "non-temporary DNSError) and answers on virtual time (stages = check blocks); real-time timeouts inside the code are not explored",
     ]
     return c.finish(
-        rule="cases = (From header shape: one/none/several addresses or fields, 8 address syntaxes) x (what _dmarc.<author> and _dmarc.<org> answer: "
+        rule="cases = (From header shape: one/none/several addresses or fields, 8 address syntaxes, display names net/mail refuses - encoded-words in charsets without decoder, "
+        "unquoted specials, unterminated comments/quotes, non-UTF-8 bytes - in front of one or several addresses and in groups, the domain the case is built around on the first, "
+        "last or a middle address) x (pipeline runs: 1-3 check blocks global/source/recipient reporting the results piecewise, Body or BodyNonAtomic, every DNS answer arriving at "
+        "once / while the checks of block k run / after all checks, resolver honouring context cancellation) x (what _dmarc.<author> and _dmarc.<org> answer: "
         "record / junk TXT / empty / multiple / invalid / NXDOMAIN / SERVFAIL / timeout / other error) x (p, sp in none|quarantine|reject|absent; adkim, aspf in r|s|absent; "
         "pct absent|100|partial) x (0-7 DKIM results + 0-2 SPF results, values and identifier domains drawn from a fixed set of 34 names with hand-written "
         "organizational domains: exact, other spelling, subdomain, sibling, public suffix, other registrant, unrelated); quick: random sample through the real "
